@@ -68,15 +68,19 @@ def r15_error_class(c, facts, rule='C07.R15'):
     R = c.rule(rule, 'ERROR-CLASS: every error raised by inference and type checking is of the same class, whichever equation fails first')
     kinds = {}
     n = 0
+    nfn = 0
     for fn in sorted(facts.fns.values(), key=lambda f: f.qname):
         if not fn.mir or not (fn.qname.startswith('oal_compiler::inference') or fn.qname.startswith('oal_compiler::typecheck')) or '::tests::' in fn.qname:
             continue
+        nfn += 1
         for b, blk in fn.blocks():
             for st in blk['stmts']:
                 if st['s'] == 'assign' and st['rv']['r'] == 'aggr' and (st['rv'].get('adt') or '').endswith('errors::Kind'):
                     kinds.setdefault(st['rv'].get('variant'), set()).add(fn.qname.split('::{closure')[0])
                     n += 1
-    c.floor(R, 'error constructions in inference and typecheck', n, 20)
+    # (a constructor helper `invalid_type(msg)` may collect the sites: the census is of kinds, not of sites)
+    c.floor(R, 'error constructions in inference and typecheck', n, 2)
+    c.floor(R, 'functions of inference and typecheck scanned', nfn, 40)
     other = {k: sorted(v) for k, v in kinds.items() if k != 'InvalidType'}
     if other:
         c.bad(R, 'error-class:%s' % ','.join('%s@%s' % (k, ','.join(x.split('::')[-1] for x in v)) for k, v in sorted(other.items())), 'inference / type checking also reports %s: for a program with two faults the class of the error depends on which is reached first, i.e. on the order of declarations' % other)
